@@ -261,7 +261,7 @@ pub fn run(p: &Params, rep: &mut Report) {
 
     // (4) random long texts and strings
     let mut rng = p.rng(8);
-    let nr = p.size(2000, 100_000);
+    let nr = p.size(20_000, 400_000);
     for _ in 0..nr {
         let len = rng.usize(40);
         let t: Vec<char> = (0..len)
